@@ -45,7 +45,11 @@ G = "table(glyph) cA = glyphid(3..6); cB = glyphid(7..10); cC = glyphid(11); end
 OKRULE = "table(sub) cA > cB; endtable;\n"
 
 # Past failures (each was a crash, hang or overrun of the pinned tree; see known_findings.json "fixed").
+DEEP_LIST = H + "table(glyph) cB = glyphid(7); cA = glyphid(3) {" + "; ".join("q%d = %d" % (i, i % 100) for i in range(70000)) + "}; endtable;\ntable(sub) cA > cB; endtable;\n"
+
 CORPUS = [
+    # one attribute list of 70,000 assignments: the list rule of the grammar is right-recursive (known finding)
+    ("deep-attr-list", DEEP_LIST, None, {"known_stack_overflow": "C11:stack-overflow-in-the-right-recursive-list-rules-of-the-parser", "recursion": "attrItemList"}),
     ("empty-class-subst", H + "table(glyph) cE = (); cB = glyphid(7..9); endtable;\ntable(sub) cE > cB; endtable;\n", None, {}),
     ("passkeyslot-on-insert", H + G + "table(sub) cA _ > cA cC:1 {passKeySlot = true}; endtable;\n", None, {}),
     ("e-without-value", H + G + OKRULE, ["-e"], {}),
@@ -313,6 +317,9 @@ def run(tier, seed, replay=None):
         if opt.get("family"):
             font = ttf.simple_font(40, family=opt["family"])[0]
         res = rn.run_case("corpus-" + name, gdl.encode("latin-1"), font, argv, "scale-corpus" if "ffff" in name or "pass" in name or "unicode-range" in name else "corpus")
+        if opt.get("known_stack_overflow") and res["verdict"] in ("asan", "crash", "crash-release") and ("stack-overflow" in str(res["sig"]) or "release-exit" in str(res["sig"]) or res["verdict"] == "crash"):
+            # the frame in which the stack runs out varies from run to run: the finding is identified by the recursion
+            res["sig"] = opt["known_stack_overflow"] if ("GrpParser::" + opt["recursion"]) in res["out"] or res["verdict"] != "asan" else res["sig"]
         rn.account(res)
     ncorpus = len(CORPUS)
 
